@@ -22,6 +22,20 @@ delegates to a real `numpy.random.Generator`, or - in scripted mode - returns a 
 * sample_lhs: every index of mode k is used floor(m/n_k) or ceil(m/n_k) times, all m = 1..3*max(n)+2.
 * sample_tt: (I, idx, idx_many): idx partitions I, block k = LHS prefixes x full mode k x LHS suffixes in the
   advertised order (mode index slowest, suffix fastest), idx_many = number of suffixes per block.
+
+Parameter-coverage additions (audit of every sampler x every parameter):
+* C14.sample.chain_scaled: `sample` on tensors of overall norm 2^(-800) .. 2^(+800) with unsert = 0 (the absolute noise
+  is the only scale of the routine); C14.sample.chain with unsert = 1e-3; chain_random with m = 1.
+* C14.sample.chain_signed_cores: non-negative tensors whose cores have both signs (Kronecker squares of signed tensors).
+* mode sizes beyond one byte (300, 260) in the scripted chains of sample / sample_square and in sample_tt.layout; mode
+  sizes 300 / 33000 in the shape-and-bounds clause of every sampler (m above and below the mode sizes).
+* C14.sample_square.unique_limits: explicit m_fact / max_rep, as many distinct rows as non-zero entries (forced
+  restarts), more than exist -> ValueError (never a short or repeated result), max_rep < 0.
+* C14.sample_lhs.counts_at: floor / ceil rule for single (n, m) with n = 300, 33000, 70000 and m = 1, n-1, n, n+1, >> n,
+  m a multiple of every mode; n as float array / m as float.
+# DOUBTFUL (not yielded): sample_tt(n) with n given as floats (the docstring allows "int/float") raises TypeError
+# (range(n[i])), e.g. sample_tt(np.array([3., 4.]), 2, seed=1); sample_lhs / sample_rand accept float n.
+# float_cf of sample_square returns non-integer "indices" by design and is outside the statement.
 """
 import itertools
 import math
@@ -32,9 +46,11 @@ from rtc import gen
 
 
 BUDGET = (100, 600)
-BOUNDS = ('chain audits: 14 shapes with <= 24 entries (quick) / 24 shapes with <= 120 entries (thorough), d = 2..6, '
-          'ranks 1..3, integer cores (zeros allowed), every multi-index scripted once; gof: 4000 / 20000 draws; '
-          'LHS: mode sizes 1..9, m = 1..29; sample_tt: 9 shapes x r in 1..5')
+BOUNDS = ('chain audits: 14 shapes with <= 24 entries (quick) / 24 shapes with <= 120 entries (thorough) + [300,2], [2,260], d = 2..6, '
+          'ranks 1..3, integer cores (zeros allowed; signed cores of non-negative tensors), every multi-index scripted once, '
+          'per-core scales 2^-200 .. 2^300, unsert in {default, 0, 1e-10, 1e-3}; gof: 4000 / 20000 draws; '
+          'LHS: mode sizes 1..9, m = 1..29, and n in {300, 33000, 70000} at selected m; sample_tt: 11 shapes x r in 1..5; '
+          'sample_square unique: m up to the number of non-zero entries, m_fact in {1,2,5}, max_rep in {-1,0,1,100}')
 
 SHAPES_Q = [[2, 3], [3, 2], [4, 6], [1, 5], [5, 1], [2, 2, 2], [3, 2, 2], [2, 3, 4], [1, 3, 2], [3, 1, 4], [2, 2, 2, 3],
             [2, 1, 2, 2], [2, 2, 2, 2], [3, 2, 1, 4]]
@@ -145,11 +161,19 @@ def _targets(W):
     return np.array([idx for idx in itertools.product(*[range(k) for k in n]) if pm[idx[:-1]] > 0], dtype=int)
 
 
-def _run_chain(fn, n, r, seed, scripted, m, unsert, exp=0):
+def _kron_square(X):
+    """TT-tensor of the elementwise square of X (Kronecker product of every core slice with itself): a non-negative
+    tensor whose cores have entries of both signs"""
+    return [np.einsum('aib,cid->acibd', G, G).reshape(G.shape[0] ** 2, G.shape[1], G.shape[2] ** 2) for G in X]
+
+
+def _run_chain(fn, n, r, seed, scripted, m, unsert, exp=0, signed=False):
     square = fn == 'sample_square'
-    Y, W, total = _tensor(n, r, seed, square)
+    Y, W, total = _tensor(n, r, seed, square or signed)
     if total == 0:
         return SKIP('zero tensor defines no distribution')
+    if signed:
+        Y = _kron_square(Y)
     if exp:
         # exact power-of-two rescaling of every core: the distribution (entry^2 / total) is unchanged
         Y = [G * 2.0 ** exp for G in Y]
@@ -197,6 +221,22 @@ def sample_chain(n, r, seed, unsert):
     """sample, scripted audit over every multi-index: conditionals == dense conditionals, product == entry/total
     (first-mode vector up to the documented `unsert` noise, 4*n0*unsert/total)."""
     return _run_chain('sample', n, r, seed, True, None, unsert)
+
+
+@clause('C14.sample.chain_scaled', funcs=('sample.sample',))
+def sample_chain_scaled(n, r, seed, exp):
+    """sample(unsert=0.) on a tensor whose cores are all multiplied by 2**exp (overall norm 2**(d*exp), tiny or huge):
+    proportionality to the entries is scale-free, the audited conditionals are the dense conditionals for every
+    multi-index (the documented absolute `unsert` noise is switched off, it is the only scale in the routine)."""
+    return _run_chain('sample', n, r, seed, True, None, 0.0, exp=exp)
+
+
+@clause('C14.sample.chain_signed_cores', funcs=('sample.sample',))
+def sample_chain_signed_cores(n, r, seed, scripted):
+    """sample on a NON-NEGATIVE tensor whose TT-cores have entries of both signs (the elementwise square X*X of a
+    signed integer tensor, cores = Kronecker squares): probability proportional to the entry x^2, conditionals equal
+    to the dense ones for every multi-index."""
+    return _run_chain('sample', n, r, seed, bool(scripted), 40, None, signed=True)
 
 
 @clause('C14.sample.chain_random', funcs=('sample.sample',))
@@ -257,6 +297,31 @@ def sample_square_unique(n, r, seed, m, genobj):
     if any(W[tuple(r_)] == 0 for r_ in I.tolist()):
         return FAIL('a multi-index of zero weight was returned')
     return PASS
+
+
+@clause('C14.sample_square.unique_limits', funcs=('sample.sample_square',))
+def sample_square_unique_limits(n, r, seed, m_fact, max_rep, over, genobj):
+    """unique=True with explicit m_fact / max_rep: asking for as many distinct rows as there are entries of
+    non-zero weight (over = 0; restarts are needed with m_fact = 1) gives exactly these rows; asking for more
+    (over > 0) can never be satisfied: ValueError - never a short, padded or repeated result."""
+    Y, W, total = _tensor(n, r, seed, True)
+    nz = int(np.count_nonzero(W))
+    if nz == 0:
+        return SKIP('zero tensor')
+    if over == 0 and W[W > 0].min() / total < 0.004:
+        return SKIP('an entry of tiny weight: too many restarts for a bounded case')
+    m = nz + over
+    try:
+        I = teneva.sample_square(Y, m, True, np.random.default_rng(seed) if genobj else seed, m_fact, max_rep)
+    except ValueError as e:
+        return PASS if over > 0 or max_rep < 8 else FAIL(f'ValueError although {m} distinct rows exist: {e}')
+    if over > 0:
+        return FAIL(f'{m} distinct rows requested from a tensor with {nz} non-zero entries: returned shape {np.shape(I)}')
+    if not isinstance(I, np.ndarray) or I.shape != (m, len(n)) or I.dtype.kind not in 'iu':
+        return FAIL(f'result shape {getattr(I, "shape", None)} dtype {getattr(I, "dtype", None)}')
+    rows = {tuple(r_) for r_ in I.tolist()}
+    want = {tuple(int(v) for v in idx) for idx in np.argwhere(W > 0)}
+    return check(rows == want, f'rows {sorted(rows)} are not the {nz} entries of non-zero weight')
 
 
 def _gof(fn, n, r, seed, m):
@@ -391,6 +456,23 @@ def lhs_counts(n, seed, genobj):
     return PASS
 
 
+@clause('C14.sample_lhs.counts_at', funcs=('sample.sample_lhs',))
+def lhs_counts_at(n, m, seed, genobj, as_float):
+    """The floor / ceil usage rule for a single (n, m), so that large modes (> 255, > 32767) and m far below /
+    equal to / far above the mode sizes are reachable; n as int list or float array, m as int or float."""
+    sd = np.random.default_rng(seed) if genobj else seed
+    I = teneva.sample_lhs(np.array(n, dtype=float) if as_float else list(n), float(m) if as_float else m, seed=sd)
+    if not isinstance(I, np.ndarray) or I.shape != (m, len(n)) or I.dtype.kind not in 'iu':
+        return FAIL(f'shape {getattr(I, "shape", None)} dtype {getattr(I, "dtype", None)}')
+    if I.min() < 0:
+        return FAIL('negative index')
+    for k, nk in enumerate(n):
+        msg = _lhs_ok(I[:, k], nk, m)
+        if msg:
+            return FAIL(f'mode {k}: ' + msg)
+    return PASS
+
+
 @clause('C14.sample_lhs.shuffled', funcs=('sample.sample_lhs',))
 def lhs_shuffled(nk, m, seed):
     """The columns are permuted independently (not the sorted repeat pattern): over 40 seeds a column of a
@@ -471,6 +553,36 @@ def cases(tier, seed):
             yield 'C14.sample.chain_random', dict(n=n, r=r, seed=rs(), m=400 if big else 60)
             yield 'C14.sample_square.chain_random', dict(n=n, r=r, seed=rs(), m=400 if big else 60)
             yield 'C14.sample_square.unique', dict(n=n, r=r, seed=rs(), m=[1, 3, 8][r - 1], genobj=bool(r % 2))
+    # ---- parameter-coverage additions -----------------------------------------------------------------------
+    for _exp in (-200, -60, 60, 200):               # sample: tiny / huge overall norm (unsert switched off)
+        for _n, _r in (([2, 3, 2, 2], 2), ([3, 4], 3), ([2, 2, 3], 1)):
+            yield 'C14.sample.chain_scaled', dict(n=_n, r=_r, seed=7 + abs(_exp), exp=_exp)
+    for n in ([2, 3], [4, 3], [2, 2, 2], [3, 1, 2], [2, 2, 2, 2]) + (([3, 3, 3], [2, 5, 2, 2]) if big else ()):
+        for r in (1, 2):
+            yield 'C14.sample.chain_signed_cores', dict(n=n, r=r, seed=rs(), scripted=1)
+            yield 'C14.sample.chain_signed_cores', dict(n=n, r=r, seed=rs(), scripted=0)
+    for n in ([300, 2], [2, 260]):                  # mode sizes beyond one byte
+        yield 'C14.sample.chain', dict(n=n, r=2, seed=rs(), unsert=0.0)
+        yield 'C14.sample_square.chain', dict(n=n, r=2, seed=rs())
+        yield 'C14.sample_tt.layout', dict(n=n, r=2, seed=rs(), genobj=False, as_array=True)
+    for n in SHAPES_Q[:6]:                          # larger documented noise, a single sample
+        yield 'C14.sample.chain', dict(n=n, r=2, seed=rs(), unsert=1e-3)
+        yield 'C14.sample.chain_random', dict(n=n, r=2, seed=rs(), m=1)
+        yield 'C14.sample_square.chain_random', dict(n=n, r=2, seed=rs(), m=1)
+    for n in ([2, 2], [3, 2], [2, 2, 2], [1, 3, 2]) + (([2, 3, 2], [4, 2]) if big else ()):
+        for r in (1, 2):
+            for (m_fact, max_rep, over) in ((1, 100, 0), (5, 100, 0), (1, 1, 1), (2, 0, 3), (1, -1, 0)):
+                yield 'C14.sample_square.unique_limits', dict(n=n, r=r, seed=rs(), m_fact=m_fact, max_rep=max_rep, over=over,
+                                                              genobj=bool(over % 2))
+    for (n, ms) in (([300, 2], (1, 2, 299, 300, 301, 1000)), ([33000], (3, 33001)), ([1, 70000, 2], (5,)), ([4, 7], (28, 56, 3))):
+        for m in ms:
+            yield 'C14.sample_lhs.counts_at', dict(n=n, m=m, seed=rs(), genobj=bool(m % 2), as_float=bool(m % 3 == 0))
+    for fn in SAMPLERS:
+        for (n, m) in (([300, 2], 700), ([33000, 3], 4)):
+            if fn == 'sample_tt':
+                m = 2
+            yield ('C14.sample_square.shape_bounds' if fn.startswith('sample_square') else
+                   'C14.samplers.shape_bounds'), dict(fn=fn, n=n, m=m, seed=rs(), genobj=False, forms=1)
     for n in ([2, 3], [2, 2, 2], [3, 1, 4], [2, 2, 2, 3]) + (([4, 5, 6], [2] * 6) if big else ()):
         for r in (1, 2, 3):
             for cid in ('C14.sample.gof', 'C14.sample_square.gof'):
